@@ -27,15 +27,21 @@ def settings (g : Gencode) : List Gencode := [g, setInitiatorAny A.amino g, setI
 
 /-! ## tables -/
 
-/-- every built-in table, written in NCBI column order (TCAG), equals the pinned NCBI table: same ids in the same order,
-    same 64 amino acids / stops, same 64 start flags — `decide` over all 18 × 128 entries -/
+/-- every built-in table, written in NCBI column order (TCAG), is one of the pinned NCBI tables under the same id, and
+    every pinned table is offered (the order of the rows in the C array is immaterial): same 64 amino acids / stops, same
+    64 start flags — `decide` over all 18 × 128 entries -/
 theorem tables_pinned :
-    T.tables.map (fun t => (t.id, Ncbi.aasLine t.basic, Ncbi.startsLine t.init)) =
-      Ncbi.pinned.map (fun p => (p.1, p.2.1.toList, p.2.2.toList)) := by decide +kernel
+    (∀ t ∈ T.tables, (t.id, Ncbi.aasLine t.basic, Ncbi.startsLine t.init) ∈
+        Ncbi.pinned.map (fun p => (p.1, p.2.1.toList, p.2.2.toList))) ∧
+    (∀ p ∈ Ncbi.pinned.map (fun p => (p.1, p.2.1.toList, p.2.2.toList)),
+        p ∈ T.tables.map (fun t => (t.id, Ncbi.aasLine t.basic, Ncbi.startsLine t.init))) := by decide +kernel
 
 /-- `esl_gencode_Set(id)` finds exactly the pinned ids, each once -/
-theorem table_ids : T.tables.map (·.id) = [1, 2, 3, 4, 5, 6, 9, 10, 11, 12, 13, 14, 16, 21, 22, 23, 24, 25] ∧
-    ∀ t ∈ T.tables, setTable T.tables t.id = some (codeOf t) := by decide +kernel
+theorem table_ids :
+    (T.tables.map (·.id)).Nodup ∧ (∀ id ∈ T.tables.map (·.id), id ∈ Ncbi.pinned.map (·.1)) ∧
+    (∀ id ∈ Ncbi.pinned.map (·.1), id ∈ T.tables.map (·.id)) ∧
+    Ncbi.pinned.map (·.1) = [1, 2, 3, 4, 5, 6, 9, 10, 11, 12, 13, 14, 16, 21, 22, 23, 24, 25] ∧
+    (∀ t ∈ T.tables, setTable T.tables t.id = some (codeOf t)) ∧ (setTable T.tables 1).isSome = true := by decide +kernel
 
 /-- under each of the three initiator settings every table is a well-formed code in which no initiator codon is a stop
     codon, every entry is an amino acid or the stop code, and the dumped alphabets satisfy the hypotheses below -/
@@ -57,8 +63,8 @@ theorem expand_is_iupac :
     (the id and description are not part of the NCBI form: `esl_gencode_Read` leaves −1 and ""). The new object starts
     as table 1, as `esl_gencode_Create` makes it. -/
 theorem read_write_roundtrip :
-    ∀ t0 ∈ T.tables.take 1, ∀ t ∈ T.tables, ∀ g ∈ settings (codeOf t), ∀ cm ∈ [true, false],
-      (write A.dna A.amino g cm).bind (read A.dna A.amino (codeOf t0)) =
+    ∀ g1 ∈ (setTable T.tables 1).toList, ∀ t ∈ T.tables, ∀ g ∈ settings (codeOf t), ∀ cm ∈ [true, false],
+      (write A.dna A.amino g cm).bind (read A.dna A.amino g1) =
         some { translTable := -1, desc := "", basic := g.basic, isInit := g.isInit } := by decide +kernel
 
 /-! ## translation of a possibly degenerate codon: ANY table, ANY degeneracy matrix, any triplet of codes (general proof) -/
